@@ -119,6 +119,51 @@ pub fn c03(tier: Tier, seed: u64) -> i32 {
     rep.finish()
 }
 
+/// Directed scenario: an out-and-back two-hop that names ONE pool for both legs (every account of the second leg
+/// aliases the first leg's), v1 and v2, exact-in and exact-out, both orders. The program refuses it today; whatever
+/// it does, the C06 monitor judges the outcome (fees of both computations booked).
+fn c06_one_pool_twice(seed: u64) -> Acc {
+    use crate::world::*;
+    let mut acc = Acc::default();
+    let mut mon = C06;
+    let mut w = World::new(crate::rnd::rng(seed));
+    let c = w.add_config(1300);
+    let u = w.add_user();
+    let (m1, m2) = (w.add_spl_mint(6), w.add_spl_mint(6));
+    // the price sits in the last tick-spacing of its array: the b-to-a leg then starts from the NEXT array, so the two
+    // legs name disjoint tick arrays (otherwise the second leg fails on borrowing an array the first one holds)
+    let Ok(p) = w.add_pool(c, m1, m2, 64, 3000, whirlpool::math::sqrt_price_from_tick_index(5600), false) else {
+        acc.count("harness_errors");
+        return acc;
+    };
+    w.ensure_tick_array(p, -2816, false);
+    w.ensure_tick_array(p, 8448, false);
+    w.ensure_tick_array(p, 5600, false);
+    let (ix, info) = w.open_position_ix(p, u, -2816, 8448, false);
+    let ok = w.exec(ix).ok();
+    w.positions.push(info);
+    let i = w.positions.len() - 1;
+    let ix = w.modify_v2(i).increase_liquidity_v2(10_000_000_000, u64::MAX, u64::MAX, None);
+    if !(ok && w.exec(ix).ok()) {
+        acc.notes.push("HARNESS-ERROR directed one-pool-twice scenario: set-up failed".into());
+        acc.count("harness_errors");
+        return acc;
+    }
+    for v2 in [false, true] {
+        for exact_in in [true, false] {
+            for d in [true, false] {
+                let ix = w.two_hop_ix(p, p, u, 1_000_000, if exact_in { 0 } else { u64::MAX }, exact_in, d, !d, 0, 0, v2);
+                let o = w.exec(ix);
+                acc.evaluations += 1;
+                Monitor::after(&mut mon, &mut w, &o, &mut acc);
+                acc.count("directed_two_hops_over_one_pool");
+                acc.situation(format!("one_pool_twice:v2={v2}:exact_in={exact_in}:{d}:{}", if o.ok() { "ok".to_string() } else { format!("{:?}", o.out.err) }));
+            }
+        }
+    }
+    acc
+}
+
 pub fn c06(tier: Tier, seed: u64) -> i32 {
     let mut rep = Report::new("C06", tier, seed);
     rep.rule = "every successful swap of the history workload on plain-token pools (static and adaptive fee): the per-step records from the swap-loop hook are re-priced: fee == ceil(in*rate/(1e6-rate)) or the unspendable remainder on a non-reaching exact-in step; sum(in+fee) == what left the trader == what entered the vault, sum(out) likewise, no other account of the trader changes; protocol fee owed grows by sum floor(fee*p/1e4), fee growth of the input token by sum floor((fee-cut)*2^64/L_step) (mod 2^128), the other token's owed/growth unchanged; the Traded event equals all of these; both legs of every successful two-hop (v1 and v2, all four direction combinations) get the same bookkeeping, event and vault/trader conservation checks per pool; collect_protocol_fees pays exactly the owed amounts and zeroes them. distinct = (instruction, mode, direction, #steps bucket, protocol fee rate, fee rate, adaptive)".into();
@@ -130,7 +175,10 @@ pub fn c06(tier: Tier, seed: u64) -> i32 {
         move |_r| HistCfg { ops: 120, pools: 3, allow_adaptive: true, spl_only: false, allow_transfer_fee: true, lifecycle_ext: true, w_swap: 52, w_two_hop: 10, w_liq: 22, w_fees: 10, w_lifecycle: 4, w_clock: 3, w_setters: 3, ..Default::default() },
         || vec![Box::new(C06) as Box<dyn Monitor>],
     );
+    let mut acc = acc;
+    acc.merge(c06_one_pool_twice(seed ^ 0xc06));
     rep.acc = acc;
+    rep.floor("directed_two_hops_over_one_pool", 8);
     rep.floor("swaps_checked", 2000);
     rep.floor("multi_step_swaps", 500);
     rep.floor("swaps_over_zero_liquidity_gap", 100);
